@@ -103,6 +103,7 @@ def errName : Err → String
   | .valueError => "valueError"
   | .unbound => "unbound"
   | .assertion => "assertion"
+  | .nameExists => "nameExists"
   | .notFound => "notFound"
   | .badFile => "badFile"
   | .unspecified => "unspecified"
@@ -124,11 +125,10 @@ def asFType (s : String) : R FType :=
 def asTarget (j : Json) : R Target := do
   let p ← fld j "path" >>= asBool
   let i ← fld j "id" >>= asNat
-  let e ← match fldD j "ext" Json.null with
-    | .str "h5" => pure Ext.h5
-    | .str "pkl" => pure Ext.pkl
-    | _ => pure Ext.other
-  pure { isPath := p, id := i, ext := e }
+  let nm ← match fldD j "name" Json.null with
+    | .null => pure ""
+    | x => asText x
+  pure { isPath := p, id := i, name := nm }
 
 structure St where
   objs : Array (Kind × Val)
@@ -152,12 +152,17 @@ def session (j : Json) : R Json := do
     let t ← fld op "target" >>= asTarget
     if what = "save" then
       let i ← fld op "obj" >>= asNat
-      let ft ← fld op "ft" >>= asStr >>= asFType
-      let ov ← fld op "overwrite" >>= asBool
       match st.objs[i]? with
       | none => throw "bad object index"
       | some (k, o) =>
-          let (fs', err, o') := save codec k st.fs t ft ov o
+          -- an omitted `ft` / `overwrite` means the argument is not passed: `save`'s defaults
+          let ft ← match fldD op "ft" Json.null with
+            | .null => pure (saveDefault k).1
+            | x => asStr x >>= asFType
+          let ov ← match fldD op "overwrite" Json.null with
+            | .null => pure (saveDefault k).2
+            | x => asBool x
+          let (fs', err, o') := saveC codec k st.fs t ft ov o
           let r := obj [("err", match err with | none => Json.null | some e => Json.str (errName e)),
                         ("pure", Json.bool (o' == o))]
           st := { objs := st.objs.set! i (k, o'), fs := fs', out := st.out.push r }
@@ -181,7 +186,7 @@ def h5rt (j : Json) : R Json := do
     | .str "ascii" => pure Codec.ascii
     | _ => pure Codec.utf8
   let v ← fld j "v" >>= asVal
-  match encode codec v with
+  match encodeC codec v with
   | .error e => pure (obj [("err", Json.str (errName e))])
   | .ok t =>
       match decode t with
